@@ -123,7 +123,7 @@ def main(tier, seed):
                 'sum over every axis, tile, diag, triu/tril, trace, symvec/vecsym, negative, conjugate/real/imag, fft/ifft, zeros/ones(-like); '
                 'non-trivial = the index map is not the identity resp. the op changes the layout; distinct by (op, shape, arguments)')
     rep.assumptions = ['numpy.shares_memory / write-through are runtime facts: NumPy applied to one coefficient slice is the reference',
-                       'tile, diag, triu/tril, trace, symvec/vecsym, conj/real/imag, fft are decided by the slice-wise NumPy predicate only']
+                       'triu/tril, trace, symvec/vecsym, conj/real/imag, fft are decided by the slice-wise NumPy predicate only; sum / tile / diag additionally against the Coq model Reduce.v']
     rep.theorems()
     rng = lib.rng_for(seed, PID)
     UTPM = algopy.UTPM
